@@ -5,8 +5,9 @@ Stage A  MC_Bip32 / MC_Bip32Path on small curves (S1, S2; Big = FALSE, toy HMAC 
          N(CKDpriv) = CKDpub(N) whenever either side is defined, hardened-from-public is an error, master rule,
          child bookkeeping, DeserXKey(SerXKey(x)) = x, the rejection table over field classes; the path machine:
          derivation = fold of steps, prefix composition, public/private commutation along paths, bookkeeping.
-         Vacuity guard: coverage must show the I_L >= n, child = 0 / infinity and invalid-master branches taken,
-         and a deviation config (CKDpub without the I_L >= n test) must make TLC report the counterexample.
+         Vacuity guard: the census printed by the models must show the I_L >= n, child = 0 / infinity, invalid-master
+         branches and every rejection reason taken, and a deviation config (CKDpub without the I_L >= n test) must
+         make TLC report the counterexample.
          These are identities OF THE SPECIFICATION: bip32.py asserts on the 32-byte I_L < n of secp256k1 and
          hashes with the real HMAC, so the code is bound at full size only.
 Stage B  Gen_Bip32 (secp256k1 size, real HMAC-SHA512): TLC enumerates derivation scenarios (path shapes over
@@ -270,23 +271,24 @@ def _stage_a_jobs(ctx):
     q = ctx.tier == "quick"
     jobs = {
         "MC_Bip32_S1.cfg": ("MC_Bip32", dict(workers=4)),
-        "MC_Bip32_S1_cov.cfg": ("MC_Bip32", dict(workers=2, coverage=True)),
         "MC_Bip32_S1_dev.cfg": ("MC_Bip32", dict(workers=2)),
-        "MC_Bip32Path_S1q.cfg": ("MC_Bip32Path", dict(workers=3)),
-        "MC_Bip32Path_S1q_cov.cfg": ("MC_Bip32Path", dict(workers=2, coverage=True)),
+        "MC_Bip32Path_S1q.cfg": ("MC_Bip32Path", dict(workers=4)),
     }
     if not q:
         for s in ("S2", "S3", "S4"):
             jobs[f"MC_Bip32_{s}.cfg"] = ("MC_Bip32", dict(workers=6))
-            jobs[f"MC_Bip32_{s}_cov.cfg"] = ("MC_Bip32", dict(workers=2, coverage=True))
         for s in ("S1t", "S2t"):
             jobs[f"MC_Bip32Path_{s}.cfg"] = ("MC_Bip32Path", dict(workers=8))
-            jobs[f"MC_Bip32Path_{s}_cov.cfg"] = ("MC_Bip32Path", dict(workers=2, coverage=True))
     return jobs
 
 
-CKD_COV = ("CkdOk", "CkdILZero", "CkdILgeN", "CkdChildZero", "XkAny", "MasterOk", "MasterZero", "MasterGeN", "DeserAny", "StrAny")
-PATH_COV = ("StepOk", "StepFailHardenedFromPublic", "StepFailInvalidChild")
+# vacuity guard 1: outcome classes that the census of each stage-A run must contain
+CKD_CENSUS = [("ckd", "ok"), ("ckd", "il-zero"), ("ckd", "il-ge-n"), ("ckd", "child-zero"), ("master", "ok"), ("master", "il-zero"),
+              ("master", "il-ge-n"), ("xk", "any"), ("str", "any")] + [("deser", r) for r in (
+                  "ok", "wrong-length", "unknown-version", "depth0-nonzero-fingerprint", "depth0-nonzero-childnum",
+                  "prvkey-version-with-pubkey", "pubkey-version-with-prvkey", "bad-prvkey-prefix", "bad-pubkey-prefix", "prvkey-zero",
+                  "prvkey-ge-n", "pubkey-not-on-curve")]
+PATH_CENSUS = [("step", "ok"), ("step", "hardened-from-public"), ("step", "invalid-child")]
 
 
 def _stage_a_eval(ctx, res):
@@ -298,24 +300,25 @@ def _stage_a_eval(ctx, res):
             continue
         if not r.completed:
             raise vlib.MachineryFailure(f"stage A: TLC did not complete cleanly on {cfg} (rc={r.rc}):\n{r.error_text()[-1500:]}")
-    for cfg, r in sorted(res.items()):
-        if cfg.endswith("_dev.cfg") or cfg.endswith("_cov.cfg"):
-            continue
-        cov = res[cfg.replace(".cfg", "_cov.cfg")]
-        if cov.distinct != r.distinct:
-            raise vlib.MachineryFailure(f"{cfg}: coverage run explored {cov.distinct} states, invariant run {r.distinct}")
         path = "Path" in cfg
+        census = {}
+        for p in r.prints:
+            if isinstance(p, list) and len(p) == 3 and p[0] == "B":
+                census[f"{p[1]}:{p[2]}"] = census.get(f"{p[1]}:{p[2]}", 0) + 1
+        missing = [f"{a}:{b}" for a, b in (PATH_CENSUS if path else CKD_CENSUS) if not census.get(f"{a}:{b}")]
+        if missing:
+            raise vlib.MachineryFailure(f"stage A {cfg}: vacuous model, outcome classes never reached: {missing}; census={census}")
         consts = ("path machine: master keys of the seeds x {main,test} x {private, neutered} x all paths over the 6 boundary indices up "
                   "to MaxLen" if path else
                   "all k in 1..n-1 x 3 chain codes x 6 boundary indices; 300 seeds; xkey x depth {0,1,254,255}; 36 payloads x 26 "
                   "mutation classes; Base58Check level")
         ctx.stage_a(cfg, r, constants=consts + " (small curve, toy HMAC, I_L in 0..n+3)")
-        # vacuity guard 1: the same state graph with -coverage (no invariants: instrumenting the EC recursion is too
-        # expensive): which outcome classes were explored
-        ctx.stage_a(cfg.replace(".cfg", "_cov.cfg"), cov, constants="same state graph, branch census (no invariants)",
-                    coverage_required=PATH_COV if path else CKD_COV)
-        ctx.cov["states"] -= cov.distinct          # the census re-explores the same states: do not count them twice
-        ctx.cov["transitions"] -= cov.generated
+        ctx.cov["stage_a"][-1]["actions"] = census          # census of outcome classes printed by the model itself
+    ctx.cov["stage_a"].append({"model": "MC_Bip32_S1_dev.cfg", "constants": "Dev = pub-no-il-check (self-test: TLC must find the "
+                               "Commute counterexample)", "distinct_states": res["MC_Bip32_S1_dev.cfg"].distinct,
+                               "states_generated": res["MC_Bip32_S1_dev.cfg"].generated, "depth": 2, "exhaustive": True,
+                               "actions": {"counterexample": res["MC_Bip32_S1_dev.cfg"].invariant},
+                               "wall_s": round(res["MC_Bip32_S1_dev.cfg"].wall, 1)})
 
 
 # ------------------------------------------------------------------------------ stage B
